@@ -228,9 +228,18 @@ func (x *FileSyntax) Cleanup() {
 			if ww == 1 && len(stmt.RParen.Comments.Before) == 0 {
 				// Collapse block into single line but keep the Line reference used by the
 				// parsed File structure.
+				// A blank line among the line's leading comments was kept by the block
+				// parser, but at top level it would detach the comments above it from
+				// the line, so drop it.
+				before := stmt.Line[0].Before[:0:0]
+				for _, c := range stmt.Line[0].Before {
+					if c.Token != "" {
+						before = append(before, c)
+					}
+				}
 				*stmt.Line[0] = Line{
 					Comments: Comments{
-						Before: commentsAdd(stmt.Before, stmt.Line[0].Before),
+						Before: commentsAdd(stmt.Before, before),
 						Suffix: commentsAdd(stmt.Line[0].Suffix, stmt.Suffix),
 						After:  commentsAdd(stmt.Line[0].After, stmt.After),
 					},
